@@ -41,6 +41,8 @@ def jobs(tier):
             add('N=%d,n-None,k=2' % N, N=N, mode='n-None', k=2)
             add('N=%d,r-None' % N, N=N, mode='r-None')
             add('N=%d,estimator,both,k=2' % N, N=N, mode='both', k=2, entry='estimator')
+            add('N=%d,estimator,n,k=N+2' % N, N=N, mode='n', k=N + 2, entry='estimator')
+            add('N=%d,n-None,k=N+1' % N, N=N, mode='n-None', k=N + 1)
         wmax = 2 if tier == 'quick' else 3
         for w in range(1, min(wmax, N) + 1):
             if N <= (4 if tier == 'quick' else 5):
